@@ -57,7 +57,11 @@ func runCase(phase string, i int) worker.Result {
 		MaxDelay:   1500 * time.Microsecond,
 		RaceWriter: true,
 		Trees:      true,
+		OptionalCB: phase != "cberr",
 	})
+	if len(c.OmitCB) > 0 {
+		res.Count("cases_with_some_callbacks_left_unset", 1)
+	}
 	if c.API == "ExtendedCopyGraph" && c.SrcKind == "remote" {
 		c.SrcKind = "memory"
 	}
